@@ -61,6 +61,7 @@ package parser
 //@   ensures [C17:tokcol] result.Pos.Column == old(l.column)
 //@   ensures [C17:notcomment] result.Type != TokenComment
 //@   ensures [C17:tok_before_lexer] result.Pos.Line < l.line || result.Pos.Column <= l.column
+//@   ensures [C17:delimited_extent] result.Type == TokenCode || result.Type == TokenCommodity ==> result.End.Line == result.Pos.Line && result.End.Column > result.Pos.Column && result.End.Column <= l.column
 //@   ensures [C08:tokline] result.Pos.Line == old(l.line) && l.line >= old(l.line)
 //@   ensures [C08:endvalid] result.End.Line >= 1 && result.End.Column >= 1 && result.End.Line <= len(l.input) + 1 && result.End.Column <= len(l.input) + 1
 //@   ensures [stop] l.pos == len(l.input) || l.input[l.pos] == '\n' || l.input[l.pos] == ';' || l.input[l.pos] == '|'
@@ -87,6 +88,7 @@ package parser
 //@   ensures [C17:tokcol] result.Pos.Column == old(l.column)
 //@   ensures [C17:notcomment] result.Type != TokenComment
 //@   ensures [C17:tok_before_lexer] result.Pos.Line < l.line || result.Pos.Column <= l.column
+//@   ensures [C17:delimited_extent] result.Type == TokenCode || result.Type == TokenCommodity ==> result.End.Line == result.Pos.Line && result.End.Column > result.Pos.Column && result.End.Column <= l.column
 //@   ensures [C08:tokline] result.Pos.Line == old(l.line) && l.line >= old(l.line)
 //@   ensures [C08:endvalid] result.End.Line >= 1 && result.End.Column >= 1 && result.End.Line <= len(l.input) + 1 && result.End.Column <= len(l.input) + 1
 //@   modifies l.pos, l.column
@@ -110,6 +112,7 @@ package parser
 //@   ensures [C17:tokcol] result.Pos.Column == old(l.column)
 //@   ensures [C17:notcomment] result.Type != TokenComment
 //@   ensures [C17:tok_before_lexer] result.Pos.Line < l.line || result.Pos.Column <= l.column
+//@   ensures [C17:delimited_extent] result.Type == TokenCode || result.Type == TokenCommodity ==> result.End.Line == result.Pos.Line && result.End.Column > result.Pos.Column && result.End.Column <= l.column
 //@   ensures [C08:tokline] result.Pos.Line == old(l.line) && l.line >= old(l.line)
 //@   ensures [C08:endvalid] result.End.Line >= 1 && result.End.Column >= 1 && result.End.Line <= len(l.input) + 1 && result.End.Column <= len(l.input) + 1
 //@   modifies l.pos, l.column, l.line, l.atStart
@@ -130,6 +133,7 @@ package parser
 //@   ensures [C17:tokcol] result.Pos.Column == old(l.column)
 //@   ensures [C17:comment_to_eol] l.pos == len(l.input) || l.input[l.pos] == '\n'
 //@   ensures [C17:tok_before_lexer] result.Pos.Line < l.line || result.Pos.Column <= l.column
+//@   ensures [C17:delimited_extent] result.Type == TokenCode || result.Type == TokenCommodity ==> result.End.Line == result.Pos.Line && result.End.Column > result.Pos.Column && result.End.Column <= l.column
 //@   ensures [C08:tokline] result.Pos.Line == old(l.line) && l.line >= old(l.line)
 //@   ensures [C08:endvalid] result.End.Line >= 1 && result.End.Column >= 1 && result.End.Line <= len(l.input) + 1 && result.End.Column <= len(l.input) + 1
 //@   ensures [stop] l.pos == len(l.input) || l.input[l.pos] == '\n'
@@ -157,6 +161,7 @@ package parser
 //@   ensures [C17:tokcol] result.Pos.Column == old(l.column)
 //@   ensures [C17:notcomment] result.Type != TokenComment
 //@   ensures [C17:tok_before_lexer] result.Pos.Line < l.line || result.Pos.Column <= l.column
+//@   ensures [C17:delimited_extent] result.Type == TokenCode || result.Type == TokenCommodity ==> result.End.Line == result.Pos.Line && result.End.Column > result.Pos.Column && result.End.Column <= l.column
 //@   ensures [C08:tokline] result.Pos.Line == old(l.line) && l.line >= old(l.line)
 //@   ensures [C08:endvalid] result.End.Line >= 1 && result.End.Column >= 1 && result.End.Line <= len(l.input) + 1 && result.End.Column <= len(l.input) + 1
 //@   ensures [C08,C09:lexeme_exact] result.End.Offset == old(l.pos) + len(result.Value)
@@ -184,6 +189,7 @@ package parser
 //@   ensures [C17:comment_to_eol] result.Type == TokenComment ==> l.pos == len(l.input) || l.input[l.pos] == '\n'
 //@   ensures [C17:eol_token] old(l.pos) < len(l.input) && l.input[old(l.pos)] == '\n' ==> result.Type == TokenNewline && l.line == old(l.line) + 1
 //@   ensures [C17:tok_before_lexer] result.Pos.Line < l.line || result.Pos.Column <= l.column
+//@   ensures [C17:delimited_extent] result.Type == TokenCode || result.Type == TokenCommodity ==> result.End.Line == result.Pos.Line && result.End.Column > result.Pos.Column && result.End.Column <= l.column
 //@   ensures [C08:tokline] result.Pos.Line == old(l.line) && l.line >= old(l.line)
 //@   ensures [C08:endvalid] result.End.Line >= 1 && result.End.Column >= 1 && result.End.Line <= len(l.input) + 1 && result.End.Column <= len(l.input) + 1
 //@   ensures [eof] result.Type == TokenEOF ==> l.pos == len(l.input)
@@ -269,6 +275,7 @@ package parser
 //@   ensures [C17:tokcol] result.Pos.Column == old(l.column)
 //@   ensures [C17:notcomment] result.Type != TokenComment
 //@   ensures [C17:tok_before_lexer] result.Pos.Line < l.line || result.Pos.Column <= l.column
+//@   ensures [C17:delimited_extent] result.Type == TokenCode || result.Type == TokenCommodity ==> result.End.Line == result.Pos.Line && result.End.Column > result.Pos.Column && result.End.Column <= l.column
 //@   ensures [C08:tokline] result.Pos.Line == old(l.line) && l.line >= old(l.line)
 //@   ensures [C08:endvalid] result.End.Line >= 1 && result.End.Column >= 1 && result.End.Line <= len(l.input) + 1 && result.End.Column <= len(l.input) + 1
 //@   ensures [frame] Frame3(l)
@@ -292,6 +299,7 @@ package parser
 //@   ensures [C17:tokcol] result.Pos.Column == old(l.column)
 //@   ensures [C17:notcomment] result.Type != TokenComment
 //@   ensures [C17:tok_before_lexer] result.Pos.Line < l.line || result.Pos.Column <= l.column
+//@   ensures [C17:delimited_extent] result.Type == TokenCode || result.Type == TokenCommodity ==> result.End.Line == result.Pos.Line && result.End.Column > result.Pos.Column && result.End.Column <= l.column
 //@   ensures [C08:tokline] result.Pos.Line == old(l.line) && l.line >= old(l.line)
 //@   ensures [C08:endvalid] result.End.Line >= 1 && result.End.Column >= 1 && result.End.Line <= len(l.input) + 1 && result.End.Column <= len(l.input) + 1
 //@   ensures [frame] Frame3(l)
@@ -312,6 +320,7 @@ package parser
 //@   ensures [C17:tokcol] result.Pos.Column == old(l.column)
 //@   ensures [C17:notcomment] result.Type != TokenComment
 //@   ensures [C17:tok_before_lexer] result.Pos.Line < l.line || result.Pos.Column <= l.column
+//@   ensures [C17:delimited_extent] result.Type == TokenCode || result.Type == TokenCommodity ==> result.End.Line == result.Pos.Line && result.End.Column > result.Pos.Column && result.End.Column <= l.column
 //@   ensures [C08:tokline] result.Pos.Line == old(l.line) && l.line >= old(l.line)
 //@   ensures [C08:endvalid] result.End.Line >= 1 && result.End.Column >= 1 && result.End.Line <= len(l.input) + 1 && result.End.Column <= len(l.input) + 1
 //@   ensures [frame] Frame3(l)
@@ -334,6 +343,7 @@ package parser
 //@   ensures [C17:tokcol] result.Pos.Column == old(l.column)
 //@   ensures [C17:notcomment] result.Type != TokenComment
 //@   ensures [C17:tok_before_lexer] result.Pos.Line < l.line || result.Pos.Column <= l.column
+//@   ensures [C17:delimited_extent] result.Type == TokenCode || result.Type == TokenCommodity ==> result.End.Line == result.Pos.Line && result.End.Column > result.Pos.Column && result.End.Column <= l.column
 //@   ensures [C08:tokline] result.Pos.Line == old(l.line) && l.line >= old(l.line)
 //@   ensures [C08:endvalid] result.End.Line >= 1 && result.End.Column >= 1 && result.End.Line <= len(l.input) + 1 && result.End.Column <= len(l.input) + 1
 //@   ensures [frame] Frame3(l)
@@ -358,6 +368,7 @@ package parser
 //@   ensures [C17:tokcol] result.Pos.Column == old(l.column)
 //@   ensures [C17:notcomment] result.Type != TokenComment
 //@   ensures [C17:tok_before_lexer] result.Pos.Line < l.line || result.Pos.Column <= l.column
+//@   ensures [C17:delimited_extent] result.Type == TokenCode || result.Type == TokenCommodity ==> result.End.Line == result.Pos.Line && result.End.Column > result.Pos.Column && result.End.Column <= l.column
 //@   ensures [C08:tokline] result.Pos.Line == old(l.line) && l.line >= old(l.line)
 //@   ensures [C08:endvalid] result.End.Line >= 1 && result.End.Column >= 1 && result.End.Line <= len(l.input) + 1 && result.End.Column <= len(l.input) + 1
 //@   ensures [frame] Frame3(l)
@@ -378,6 +389,7 @@ package parser
 //@   ensures [C17:tokcol] result.Pos.Column == old(l.column)
 //@   ensures [C17:notcomment] result.Type != TokenComment
 //@   ensures [C17:tok_before_lexer] result.Pos.Line < l.line || result.Pos.Column <= l.column
+//@   ensures [C17:delimited_extent] result.Type == TokenCode || result.Type == TokenCommodity ==> result.End.Line == result.Pos.Line && result.End.Column > result.Pos.Column && result.End.Column <= l.column
 //@   ensures [C08:tokline] result.Pos.Line == old(l.line) && l.line >= old(l.line)
 //@   ensures [C08:endvalid] result.End.Line >= 1 && result.End.Column >= 1 && result.End.Line <= len(l.input) + 1 && result.End.Column <= len(l.input) + 1
 //@   ensures [frame] Frame3(l)
@@ -400,6 +412,7 @@ package parser
 //@   ensures [C17:tokcol] result.Pos.Column == old(l.column)
 //@   ensures [C17:notcomment] result.Type != TokenComment
 //@   ensures [C17:tok_before_lexer] result.Pos.Line < l.line || result.Pos.Column <= l.column
+//@   ensures [C17:delimited_extent] result.Type == TokenCode || result.Type == TokenCommodity ==> result.End.Line == result.Pos.Line && result.End.Column > result.Pos.Column && result.End.Column <= l.column
 //@   ensures [C08:tokline] result.Pos.Line == old(l.line) && l.line >= old(l.line)
 //@   ensures [C08:endvalid] result.End.Line >= 1 && result.End.Column >= 1 && result.End.Line <= len(l.input) + 1 && result.End.Column <= len(l.input) + 1
 //@   ensures [frame] Frame3(l)
@@ -420,6 +433,7 @@ package parser
 //@   ensures [C17:tokcol] result.Pos.Column == old(l.column)
 //@   ensures [C17:notcomment] result.Type != TokenComment
 //@   ensures [C17:tok_before_lexer] result.Pos.Line < l.line || result.Pos.Column <= l.column
+//@   ensures [C17:delimited_extent] result.Type == TokenCode || result.Type == TokenCommodity ==> result.End.Line == result.Pos.Line && result.End.Column > result.Pos.Column && result.End.Column <= l.column
 //@   ensures [C08:tokline] result.Pos.Line == old(l.line) && l.line >= old(l.line)
 //@   ensures [C08:endvalid] result.End.Line >= 1 && result.End.Column >= 1 && result.End.Line <= len(l.input) + 1 && result.End.Column <= len(l.input) + 1
 //@   ensures [frame] Frame3(l)
@@ -440,6 +454,7 @@ package parser
 //@   ensures [C17:tokcol] result.Pos.Column == old(l.column)
 //@   ensures [C17:notcomment] result.Type != TokenComment
 //@   ensures [C17:tok_before_lexer] result.Pos.Line < l.line || result.Pos.Column <= l.column
+//@   ensures [C17:delimited_extent] result.Type == TokenCode || result.Type == TokenCommodity ==> result.End.Line == result.Pos.Line && result.End.Column > result.Pos.Column && result.End.Column <= l.column
 //@   ensures [C08:tokline] result.Pos.Line == old(l.line) && l.line >= old(l.line)
 //@   ensures [C08:endvalid] result.End.Line >= 1 && result.End.Column >= 1 && result.End.Line <= len(l.input) + 1 && result.End.Column <= len(l.input) + 1
 //@   ensures [frame] Frame3(l)
@@ -460,6 +475,7 @@ package parser
 //@   ensures [C17:tokcol] result.Pos.Column == old(l.column)
 //@   ensures [C17:notcomment] result.Type != TokenComment
 //@   ensures [C17:tok_before_lexer] result.Pos.Line < l.line || result.Pos.Column <= l.column
+//@   ensures [C17:delimited_extent] result.Type == TokenCode || result.Type == TokenCommodity ==> result.End.Line == result.Pos.Line && result.End.Column > result.Pos.Column && result.End.Column <= l.column
 //@   ensures [C08:tokline] result.Pos.Line == old(l.line) && l.line >= old(l.line)
 //@   ensures [C08:endvalid] result.End.Line >= 1 && result.End.Column >= 1 && result.End.Line <= len(l.input) + 1 && result.End.Column <= len(l.input) + 1
 //@   ensures [frame] Frame3(l)
@@ -485,6 +501,7 @@ package parser
 //@   ensures [C17:tokcol] result.Pos.Column == old(l.column)
 //@   ensures [C17:notcomment] result.Type != TokenComment
 //@   ensures [C17:tok_before_lexer] result.Pos.Line < l.line || result.Pos.Column <= l.column
+//@   ensures [C17:delimited_extent] result.Type == TokenCode || result.Type == TokenCommodity ==> result.End.Line == result.Pos.Line && result.End.Column > result.Pos.Column && result.End.Column <= l.column
 //@   ensures [C08:tokline] result.Pos.Line == old(l.line) && l.line >= old(l.line)
 //@   ensures [C08:endvalid] result.End.Line >= 1 && result.End.Column >= 1 && result.End.Line <= len(l.input) + 1 && result.End.Column <= len(l.input) + 1
 //@   ensures [frame] Frame3(l)
@@ -510,6 +527,7 @@ package parser
 //@   ensures [C17:comment_to_eol] result.Type == TokenComment ==> l.pos == len(l.input) || l.input[l.pos] == '\n'
 //@   ensures [C17:eol_token] old(l.pos) < len(l.input) && l.input[old(l.pos)] == '\n' ==> result.Type == TokenNewline && l.line == old(l.line) + 1
 //@   ensures [C17:tok_before_lexer] result.Pos.Line < l.line || result.Pos.Column <= l.column
+//@   ensures [C17:delimited_extent] result.Type == TokenCode || result.Type == TokenCommodity ==> result.End.Line == result.Pos.Line && result.End.Column > result.Pos.Column && result.End.Column <= l.column
 //@   ensures [C08:tokline] result.Pos.Line == old(l.line) && l.line >= old(l.line)
 //@   ensures [C08:endvalid] result.End.Line >= 1 && result.End.Column >= 1 && result.End.Line <= len(l.input) + 1 && result.End.Column <= len(l.input) + 1
 //@   ensures [eof] result.Type == TokenEOF ==> l.pos == len(l.input)
@@ -532,6 +550,7 @@ package parser
 //@   ensures [C17:comment_to_eol] result.Type == TokenComment ==> l.pos == len(l.input) || l.input[l.pos] == '\n'
 //@   ensures [C17:eol_token] old(l.pos) < len(l.input) && l.input[old(l.pos)] == '\n' ==> result.Type == TokenNewline && l.line == old(l.line) + 1
 //@   ensures [C17:tok_before_lexer] result.Pos.Line < l.line || result.Pos.Column <= l.column
+//@   ensures [C17:delimited_extent] result.Type == TokenCode || result.Type == TokenCommodity ==> result.End.Line == result.Pos.Line && result.End.Column > result.Pos.Column && result.End.Column <= l.column
 //@   ensures [C08:tokline] result.Pos.Line == old(l.line) && l.line >= old(l.line)
 //@   ensures [C08:endvalid] result.End.Line >= 1 && result.End.Column >= 1 && result.End.Line <= len(l.input) + 1 && result.End.Column <= len(l.input) + 1
 //@   ensures [eof] result.Type == TokenEOF ==> l.pos == len(l.input)
